@@ -257,7 +257,7 @@ ADDED_RULES = {
     'C15': 'R-GUARDCALLS for UniqueGuard / SharedGuard of the shared mutex; R-INV clauses V (a failing try never modified _state) and R (reader exit / first-writer arming). R-WRAPWIDTH (a counter value and the negated quantity it is compared with have the same width). R-WRAPWIDTH resolves the negation through single-definition locals. R-LOCKAPI (shared with C14) on SharedMutex: TryGuard / TryGuardShared tags, shared / exclusive lock awaiters.',
     'C16': 'R-ADDFIRST, R-CASFRESH on TryAdd. R-EVENTFORMS (Set stores the all-done sentinel, TryAdd links in front of the expected head, Wait blocks iff registered, always-suspending awaiters resume themselves when not registered, sticky / on-executor awaiters resume through Submit). R-EVENTCALLBACK (shared with C11). R-SIBLING: Done is reached only with a provably positive amount. R-WGMODE (Consume takes ownership of the cores and registers the releasing callback, Attach does not; every overload selects its mode), R-WGRESET (Reset re-arms the event and sets the counter). R-WGWAIT (Wait / WaitFor / WaitUntil answer through the event only, never on the counter alone).',
     'C17': 'D2 is type based (the engine is found whatever it is called; SetSeed stores the seed, re-seeds on every path and restarts the draw counter), D4 pointer-in-key. D2 converse (counter and engine advance together on every path of GetRandNumber; ForwardToRandCount iterates exactly the recorded count). D7 (the mutable static state of the fault layer is the reviewed set; a new static that decision code reads is reported). D7 accepts table statics regrouped into one aggregate (as many vanished entries as fields).',
-    'C19': 'compare-exchange on floating T decides on the object representation (found F13); a wrapper operation built on the injected weak CAS must not decide with == / != on floating values. R-OPTABLE compares integral operations modulo 2^N (a + (0 - b) is a - b for integral T only); private helpers are judged through their users. R-APIFORM (positive compile witnesses: every std::atomic operation is well-formed on yaclib_std::atomic in both fault backends; found F15, fixed, and F16, known).',
+    'C19': 'compare-exchange on floating T decides on the object representation (found F13); a wrapper operation built on the injected weak CAS must not decide with == / != on floating values. R-OPTABLE compares integral operations modulo 2^N (a + (0 - b) is a - b for integral T only); private helpers are judged through their users. R-APIFORM (positive compile witnesses: every std::atomic operation is well-formed on yaclib_std::atomic in both fault backends; found F15 and F16, both fixed).',
     'C20': 'probe entries for fat captures (72 B, 1 KiB), mutable lambda, function pointer / reference and lvalue functor across the step kinds. Probe value type LooseValue (move constructor not noexcept) through WhenAll / WhenAny / Join: a copy per input in Retire is an unbounded allocation; std::string members classified; vector::reserve counted as one block.',
     'C18': 'R-MODE compares every acquisition form with the set of acquire effects of the blocking lock() (each form must offer each of them and nothing else); R-ODR (inline / constexpr functions used by the wrappers are defined in the unit that uses them). R-WAKEALL (a release never wakes only one waiter of a queue on which shared acquirers park; found F12). R-SLEEPSLOT (a sleep-list slot is erased only when empty). R-TLS (thread-local pointers live in the fiber object: the proxy goes through GetTLS / SetTLS of the current fiber and keeps no file-level state besides the defaults); R-FORWARD: try_lock wrappers answer what Impl answered.',
 }
